@@ -93,7 +93,12 @@ class Rig:
         if noise:
             data = net.refwire.sd_datagram(0xC0 if flag else 0x40, [], [], sid, mid=0x8101)
         else:
-            data = net.sd_bytes(list(entries), sid, reboot=flag)
+            # a fifth of the messages carries the unicast flag clear: its entries are ignored, but it is a received SD
+            # message like any other - it is compared with its predecessor and remembered for its successor
+            uc = self.n % 5 != 3
+            if not uc:
+                self.ctx.count("messages_with_unicast_flag_clear")
+            data = net.sd_bytes(list(entries), sid, reboot=flag, unicast=uc)
         self.h.at(self.t, self.prot.datagram_received, data, sender, multicast)
         self.h.run(self.t)
         self.n += 1
@@ -130,7 +135,8 @@ class Rig:
         self.calls.clear()
         self.probe.clear()
         self.h.loop.max_iterations = self.h.loop.iteration + 2000
-        datas = [(net.sd_bytes([], sid, reboot=flag), sender, mc) for sender, mc, flag, sid in msgs]
+        self.n += 1
+        datas = [(net.sd_bytes([], sid, reboot=flag, unicast=(self.n + i) % 4 != 1), sender, mc) for i, (sender, mc, flag, sid) in enumerate(msgs)]
         if one_datagram:
             sender, mc = msgs[0][0], msgs[0][1]
             self.h.at(self.t, self.prot.datagram_received, b"".join(d[0] for d in datas), sender, mc)
